@@ -571,10 +571,10 @@ def blocks_part(prop, tier, seed):
     part["solvers"] = [K.SOLVER]
     thorough = tier == "thorough"
     pth, cmd = _ir("blocks.cc", "-O0")
-    budget = 800 if thorough else 80
+    budget = 700 if thorough else 80
     specs = []
     base = dict(kind='blocks', N=8, ir=pth, seed=seed, budget_s=budget, samples=(10 if thorough else 2), stride=(1 if thorough else 3),
-                xcheck=(4 if thorough else 0))
+                xcheck=(2 if thorough else 0), xcheck_stride=7)
 
     def add(op, n, state, maxib, caps, N=8):
         for cap in caps:
@@ -584,7 +584,8 @@ def blocks_part(prop, tier, seed):
         add('RBIV_u8', 4, 'any', 1, [1, 2, 3, 4])
         add('RBIV_u8', 4, 'boundary', 1, [1, 2, 3, 4], N=16)
         add('RBIV_u32', 4, 'boundary', 1, [1, 2, 3, 4])
-        add('RBIV_u32', 3, 'any', 2, [1, 2, 3])
+        add('RBIV_u32', 3, 'any', 2, [1, 2])
+        add('RBIV_u32', 3, 'boundary', 2, [3])
         add('RBIV_u32', 2, 'any', 3, [1, 2])
     else:
         add('ReadBlock_u32', 4, 'any', 2, [None])
